@@ -253,6 +253,11 @@ def run_pipe(h, scratch):
         for opt in ("--layout-features=*", "--retain-gids", "--glyph-names", "--name-IDs=*", "--no-hinting", "--desubroutinize", "--passthrough-tables", "--recommended-glyphs", "--drop-tables+=DSIG", "--legacy-kern", "--symbol-cmap"):
             if r.random() < 0.3:
                 args.append(opt)
+        # list options edited relative to their defaults (+= / -=): the defaults must be the same for the
+        # next run in the process
+        for opt in ("--no-subset-tables+=GSUB,GPOS", "--no-subset-tables+=GDEF", "--no-subset-tables-=glyf", "--layout-features+=smcp,ss01", "--layout-features-=kern,liga", "--name-IDs+=7,9", "--drop-tables-=GSUB", "--hinting-tables-=fpgm", "--layout-scripts+=latn"):
+            if r.random() < 0.12:
+                args.append(opt)
         subset.main(args)
         with open(o, "rb") as f:
             return f.read()
